@@ -42,15 +42,17 @@ def mb_recipes(rng, n):
 def inputs_for(pid, tier, rng):
     quick = tier == "quick"
     if pid == "C04":
-        ex = list(pc.enum_strings(SIGMA_MB, 4 if quick else 5))
+        # thorough: length 5 over the 12 symbols that matter most for spans (markers + one char of each UTF-8 width)
+        sub = ["a", " ", "\n", "@", "~", "{", "}", "(", ")", "%", "é", "名"]
+        ex = list(pc.enum_strings(SIGMA_MB, 4)) + ([] if quick else list(pc.enum_strings(sub, 5, minlen=5)))
         specials = ["~名(x)", "~名()", "~é(x)", "@名(n){1%名}", "#名|名{2}(名)", "@a{=1%é}", "~{1%名}",
                     "---\n名: é\n---\n@名{}", "---\n[\n---\n名", ">> 名: é", "= 名 =", "> 名 @é", "\\名", "名\\"]
     else:
-        ex = list(pc.enum_strings(SIGMA_C05, 3 if quick else 4)) + list(pc.enum_strings(pc.SIGMA_CORE, 4 if quick else 5))
+        ex = list(pc.enum_strings(SIGMA_C05, 3 if quick else 4)) + list(pc.enum_strings(pc.SIGMA_CORE, 4))
         specials = ["hello\n---\na: 1\n---\nstep", "---\na: 1\n---\nstep", "a [- b -] c", "a -- b\nc", "\\-- a",
                     "[- a", "a \\[- b -] c", "-- a\n>> k: v", "@a{1%b} -- c", "= s = x", "== s == x"]
     fm = (pc.frontmatter_family(3 if quick else 4) if pid == "C05" else pc.frontmatter_family(2)) + pc.fm_placements()
-    ng = 1500 if quick else 20000
+    ng = 1500 if quick else 12000
     g = [t for t, _, _, _ in pc.grec_texts(rng, ng)]
     mb = mb_recipes(rng, ng)
     bad = [pc.mutate(t, rng) for t in g + mb]
@@ -64,7 +66,7 @@ def run(pid, prefix, rep, tier, seed, modelled, theorem_scope, extra=None):
     paths = pc.prepare(need_release=False)
     audit = common.audit_property_file(pid)
     inputs, n_ex, n_fm, n_g, n_bad = inputs_for(pid, tier, rng)
-    exts = [0, pc.EXT_ALL] + (pc.SINGLETONS if tier == "thorough" else [])
+    exts = [0, pc.EXT_ALL] + ([2050, 32, 8] if tier == "thorough" else [])
     dis, ncases, npan = pc.lev_disagreements(paths, inputs, exts)
     n_extra = 0
     if extra is not None:
